@@ -2,6 +2,8 @@ import PfVerif.Audit.Tool
 import PfVerif.Props.C08
 import PfVerif.Lemmas.C08Dual
 import PfVerif.Lemmas.C08Parse
+import PfVerif.Lemmas.C08Glue
 #audit_module PfVerif.Props.C08
 #audit_module_ns PfVerif.Lemmas.C08Dual PfVerif.C08Dual
 #audit_module_ns PfVerif.Lemmas.C08Parse PfVerif.C08Parse
+#audit_module_ns PfVerif.Lemmas.C08Glue PfVerif.C08Glue
